@@ -145,6 +145,13 @@ def r_transform(ck: Checker) -> None:
     calls = resolved_calls(ck.prg, pu, "ngo.utils.ast:transform_ast")
     ok = len(calls) == 1 and len(calls[0].args) == 3 and is_const(calls[0].args[1], "SymbolicAtom") and unparse(calls[0].args[2]) == "self.transform"  # type: ignore[arg-type]
     ck.add("projection is applied to every symbolic atom", ok, pu, pu.node, f"`{fmt(calls[0]) if calls else None}`", "F4: a predicate must be renamed at every occurrence or not at all")
+    outer = ck.func(f"{CLS}.project_unused")
+    oc = resolved_calls(ck.prg, outer, f"ngo.{CLS}._project_unused_stm")
+    ck.need(len(oc) == 1, "project_unused projects statements at one site")
+    lp = enclosing_loop(outer, oc[0])
+    okk, n = every_iteration_reaches(ck, outer, lp, oc[0], None) if lp is not None else (False, 0)
+    ck.add("... of EVERY statement, directives included", okk and n > 0 and lp is not None and unparse(lp.iter) == outer.params()[1], outer, oc[0], f"unconditional in the loop over the program: {okk}",
+           "F4: a shrunken predicate that keeps its old arity inside an #edge / #external / #show term refers to atoms nobody derives any more")
 
 
 def r_remove_unused(ck: Checker) -> None:
